@@ -47,24 +47,16 @@ Fixpoint argmin_first {K A : Type} (lt : K -> K -> bool) (best : K * A) (l : lis
 Definition shortest_mesh_path (source destination : vec3) : vec3 :=
   let '(sx, sy, sz) := source in
   let '(dx, dy, dz) := destination in
-  minimise_xyz (dx - sx, dy - sy, dz - sz).
+  minimise_xyz (mesh_path_component sx dx, mesh_path_component sy dy, mesh_path_component sz dz).
 
 (* ------------------------------------------------------------------------------------------------
    shortest_torus_path *)
-(* the list `approaches`: (distance, vector) *)
-Definition torus_approaches (w h dx dy : Z) : list (Z * vec3) :=
-  [ (Z.max dx dy, (dx, dy, 0));
-    (w - dx + dy, (- (w - dx), dy, 0));
-    (dx + h - dy, (dx, - (h - dy), 0));
-    (Z.max (w - dx) (h - dy), (- (w - dx), - (h - dy), 0)) ].
+(* the list `approaches`: (distance, vector), and (w, h, dx, dy) after the translation of the
+   destination and the two `%`: both translated from the source text (Generated/GenGeometryShapes.v) *)
+Definition torus_approaches (w h dx dy : Z) : list (Z * vec3) := torus_approaches_src w h dx dy.
 
-(* (dx, dy) after the translation of the destination and the two `%` *)
 Definition torus_delta (source destination : vec3) (w h : Z) : Z * Z :=
-  let '(sx0, sy0, sz) := source in
-  let sx := sx0 - sz in
-  let sy := sy0 - sz in
-  let '(dx0, dy0, dz) := destination in
-  ((dx0 - dz - sx) mod w, (dy0 - dz - sy) mod h).
+  let '(_, _, dx, dy) := torus_head source destination w h in (dx, dy).
 
 (* the `if abs(x) >= height: ... elif abs(y) >= width: ...` adjustment, restated readably; what the
    model executes is the statement-by-statement translation [torus_spiral] of that part of the source
@@ -110,8 +102,8 @@ Definition choose {K} (lt : K -> K -> bool) (l : list (K * vec3)) : vec3 :=
   end.
 
 (* the vector chosen by `min(approaches, key=...)`, before minimise_xyz *)
-Definition torus_choice (k0 k1 k2 k3 : Z) (source destination : vec3) (w h : Z) : vec3 :=
-  let '(dx, dy) := torus_delta source destination w h in
+Definition torus_choice (k0 k1 k2 k3 : Z) (source destination : vec3) (width height : Z) : vec3 :=
+  let '(w, h, dx, dy) := torus_head source destination width height in
   choose lex_ltb (keyed_lex [k0; k1; k2; k3] (torus_approaches w h dx dy)).
 
 Definition shortest_torus_path (k0 k1 k2 k3 : Z) (rint : Z -> Z -> Z)
@@ -126,8 +118,8 @@ Definition torus_path_request (k0 k1 k2 k3 : Z) (source destination : vec3) (wid
                  width height.
 
 (* the code as found in the snapshot (float key); kept for the refutation theorem *)
-Definition torus_choice_orig (k0 k1 k2 k3 : Z) (source destination : vec3) (w h : Z) : vec3 :=
-  let '(dx, dy) := torus_delta source destination w h in
+Definition torus_choice_orig (k0 k1 k2 k3 : Z) (source destination : vec3) (width height : Z) : vec3 :=
+  let '(w, h, dx, dy) := torus_head source destination width height in
   choose Z.ltb (keyed_float [k0; k1; k2; k3] (torus_approaches w h dx dy)).
 
 Definition shortest_torus_path_orig (k0 k1 k2 k3 : Z) (rint : Z -> Z -> Z)
@@ -161,12 +153,21 @@ Definition ldf_order (k0 k1 k2 : Z) (vector : vec3) : list (Z * Z) :=
                        (fadd53 (Z.abs y) k1, (1, y));
                        (fadd53 (Z.abs z) k2, (2, z)) ]).
 
+(* width / height: None or a size; `x %= width` with width = 0 is a ZeroDivisionError *)
+Definition size_zero (m : option Z) : bool := match m with Some w => w =? 0 | None => false end.
+Definition has_size (m : option Z) : bool := match m with Some _ => true | None => false end.
+Definition size_val (m : option Z) : Z := match m with Some w => w | None => 0 end.
+
 Definition wrapo (m : option Z) (x : Z) : result Z :=
   match m with
   | None => Ok x
   | Some w => if w =? 0 then OtherError else Ok (x mod w)
   end.
 
+(* one iteration of the inner loop.  The four statements advancing and wrapping (x, y), the `sign = ...`
+   expression, the repeat count and the if / elif choosing (dx, dy) are also translated from the source
+   text on every run (Generated/GenGeometryShapes.v: ldf_advance, ldf_sign, ldf_count, ldf_delta_src);
+   Props/C11.v C11_ldf_source_tie proves them equal to the definitions used here. *)
 Definition ldf_step (dx dy : Z) (width height : option Z) (p : chip) : result (Z * chip) :=
   bind (wrapo width (fst p + dx)) (fun x =>
   bind (wrapo height (snd p + dy)) (fun y =>
@@ -218,7 +219,8 @@ Fixpoint hex_side (n : nat) (p : chip) (d : Z * Z) : list chip * chip :=
       (p :: fst r, snd r)
   end.
 
-Definition hex_dirs : list (Z * Z) := [(1, 1); (0, 1); (-1, 0); (-1, -1); (0, -1); (1, 0)].
+(* the directions, the first ring and the step to the next layer are read from the source text *)
+Definition hex_dirs : list (Z * Z) := hexagon_dirs.
 
 Fixpoint hex_sides (dirs : list (Z * Z)) (r : nat) (p : chip) : list chip * chip :=
   match dirs with
@@ -234,9 +236,9 @@ Fixpoint hex_rings (count : nat) (r : nat) (p : chip) : list chip :=
   match count with
   | O => []
   | S c =>
-      let a := hex_sides hex_dirs r (fst p, snd p - 1) in
+      let a := hex_sides hex_dirs r (fst p, snd p - hexagon_layer_step) in
       fst a ++ hex_rings c (S r) (snd a)
   end.
 
 Definition concentric_hexagons (radius : Z) (start : chip) : list chip :=
-  start :: hex_rings (Z.to_nat radius) 1 start.
+  start :: hex_rings (Z.to_nat (radius + 1 - hexagon_first_ring)) (Z.to_nat hexagon_first_ring) start.
